@@ -50,7 +50,7 @@ func (unpacker *RtpUnpackerAvcHevc) TryUnpackOne(list *RtpPacketList) (unpackedF
 	case PositionTypeSingle:
 		var pkt base.AvPacket
 		pkt.PayloadType = unpacker.payloadType
-		pkt.Timestamp = int64(first.Packet.Header.Timestamp / uint32(unpacker.clockRate/1000))
+		pkt.Timestamp = rtpTimestamp2Ms(first.Packet.Header.Timestamp, unpacker.clockRate)
 
 		pkt.Payload = make([]byte, len(first.Packet.Body())+4)
 		bele.BePutUint32(pkt.Payload, uint32(len(first.Packet.Body())))
@@ -71,7 +71,7 @@ func (unpacker *RtpUnpackerAvcHevc) TryUnpackOne(list *RtpPacketList) (unpackedF
 
 		var pkt base.AvPacket
 		pkt.PayloadType = unpacker.payloadType
-		pkt.Timestamp = int64(first.Packet.Header.Timestamp / uint32(unpacker.clockRate/1000))
+		pkt.Timestamp = rtpTimestamp2Ms(first.Packet.Header.Timestamp, unpacker.clockRate)
 
 		// 跳过前面的字节，并且将多nalu前的2字节长度，替换成4字节长度
 		// skip后：
@@ -125,7 +125,7 @@ func (unpacker *RtpUnpackerAvcHevc) TryUnpackOne(list *RtpPacketList) (unpackedF
 			} else if p.Packet.positionType == PositionTypeFuaEnd {
 				var pkt base.AvPacket
 				pkt.PayloadType = unpacker.payloadType
-				pkt.Timestamp = int64(p.Packet.Header.Timestamp / uint32(unpacker.clockRate/1000))
+				pkt.Timestamp = rtpTimestamp2Ms(p.Packet.Header.Timestamp, unpacker.clockRate)
 
 				var naluTypeLen int
 				var naluType []byte
@@ -215,6 +215,10 @@ func (unpacker *RtpUnpackerAvcHevc) TryUnpackOne(list *RtpPacketList) (unpackedF
 
 func calcPositionIfNeededAvc(pkt *RtpPacket) {
 	b := pkt.Body()
+	if len(b) < 1 {
+		Log.Errorf("rtp payload empty. header=%+v", pkt.Header)
+		return
+	}
 
 	// rfc3984 5.3.  NAL Unit Octet Usage
 	//
@@ -258,6 +262,10 @@ func calcPositionIfNeededAvc(pkt *RtpPacket) {
 		// |S|E|R|  Type   |
 		// +---------------+
 
+		if len(b) < 2 {
+			Log.Errorf("FU-A packet without FU header. header=%+v", pkt.Header)
+			return
+		}
 		fuIndicator := b[0]
 		_ = fuIndicator
 		fuHeader := b[1]
@@ -289,6 +297,10 @@ func calcPositionIfNeededAvc(pkt *RtpPacket) {
 
 func calcPositionIfNeededHevc(pkt *RtpPacket) {
 	b := pkt.Body()
+	if len(b) < 1 {
+		Log.Errorf("rtp payload empty. header=%+v", pkt.Header)
+		return
+	}
 
 	// +---------------+---------------+
 	// |0|1|2|3|4|5|6|7|0|1|2|3|4|5|6|7|
@@ -330,6 +342,10 @@ func calcPositionIfNeededHevc(pkt *RtpPacket) {
 
 		// Figure 10: The Structure of FU Header
 
+		if len(b) < 3 {
+			Log.Errorf("FU packet without FU header. header=%+v", pkt.Header)
+			return
+		}
 		startCode := (b[2] & 0x80) != 0
 		endCode := (b[2] & 0x40) != 0
 
@@ -346,6 +362,11 @@ func calcPositionIfNeededHevc(pkt *RtpPacket) {
 		pkt.positionType = PositionTypeFuaMiddle
 		return
 	} else if outerNaluType == NaluTypeHevcAp {
+		// the two bytes of PayloadHdr are skipped when the aggregation units are read
+		if len(b) < 2 {
+			Log.Errorf("AP packet without PayloadHdr. header=%+v", pkt.Header)
+			return
+		}
 		pkt.positionType = PositionTypeAp
 		return
 	}
